@@ -209,6 +209,9 @@ def _explore(out, tier, seed, facts, replay):
         qarr = np.stack([base, base + 0.5, base + np.array(cube3(lambda: rng.choice([1.0, 2.0, 6.0])), float).reshape(nt, 1, nl)], axis=3)
         for _ in range(rng.randint(0, 2)):
             qarr[rng.randrange(nt), 0, rng.randrange(nl), rng.randrange(3)] = NAN
+        if rng.random() < 0.6:       # stored quantiles that cross (upper below lower) in one case: the spread is upper - lower, negative there
+            a_, b_ = rng.randrange(nt), rng.randrange(nl)
+            qarr[a_, 0, b_, 2] = qarr[a_, 0, b_, 0] - rng.choice([0.5, 1.0, 2.0])
         inp_q = datagen.mem_input(spec_q, "q")
         inp_q.quantiles = np.array(stored)
         inp_q.quantile_scores = qarr
@@ -259,6 +262,28 @@ def _explore(out, tier, seed, facts, replay):
                                           "(stored levels %r) over the cases where all needed values are present gives %r" % (kind, lo_req, hi_req, axis_.name(), k_, float(g_), stored, w_),
                                           {"metric": kind, "requested_levels": [lo_req, hi_req], "stored_levels": stored, "dataset": spec_q, "quantile_columns": qarr.tolist(), "axis": axis_.name(), "slice": k_})
                             break
+    # zero resolution with varying observations (every probability in one bin): the resolution term is 0, hence BssRes = 0 / unc = 0,
+    # and the skill score is BssRes - BssRel
+    for rep_ in range(4 if tier == "quick" else 30):
+        n_ = rng.randint(4, 9)
+        ob_ = [rng.choice([0.0, 1.0]) for _ in range(n_)]
+        if len(set(ob_)) == 1:
+            ob_[0] = 1.0 - ob_[0]
+        pc_ = rng.choice([0.02, 0.31, 0.58, 0.97])
+        st_ = Stub([2.0 * o_ for o_ in ob_], cdf={1.0: [1.0 - pc_] * n_})
+        iv_ = verif.interval.Interval(1.0, np.inf, False, False)
+        try:
+            vals_ = {n2: float(M[n2].compute_single(st_, 0, None, None, iv_)) for n2 in ("BsRes", "BssRes", "BssRel", "Bss", "BsUnc")}
+        except Exception as e:
+            out.violation("zero-resolution-exception", "%r" % (e,), {"obs_event": ob_, "prob": pc_})
+            continue
+        bad_ = []
+        if abs(vals_["BsRes"]) > 1e-12 or not (abs(vals_["BssRes"]) <= 1e-12):
+            bad_.append("BsRes = %r, BssRes = %r (expected 0 and 0)" % (vals_["BsRes"], vals_["BssRes"]))
+        if not close(vals_["Bss"], vals_["BssRes"] - vals_["BssRel"], 1e-9):
+            bad_.append("Bss = %r but BssRes - BssRel = %r" % (vals_["Bss"], vals_["BssRes"] - vals_["BssRel"]))
+        if bad_:
+            out.violation("zero-resolution", "events %r, every forecast probability %r (one bin): %s" % (ob_, pc_, "; ".join(bad_)), {"obs_event": ob_, "prob": pc_})
     # PIT at a discrete probability mass of the variable (x0 / x1): the value is drawn from [0, pit] when the observation equals
     # x0, from [pit, 1] when it equals x1, and is the stored value everywhere else
     import verif.variable
